@@ -87,6 +87,9 @@ type (
 		// which if true indicates that the type has been generated
 		// in the client package.
 		ClientTypeNames map[string]bool
+		// serverBodyTypes and clientBodyTypes record the names of the user
+		// types used to define the attributes of the response bodies.
+		serverBodyTypes, clientBodyTypes bodyTypeNames
 		// ServerTransformHelpers is the list of transform functions
 		// required by the various server side constructors.
 		ServerTransformHelpers []*codegen.TransformFunctionData
@@ -2183,6 +2186,13 @@ func buildResponseBodyType(body, att *expr.AttributeExpr, loc *codegen.Location,
 			sd.ServerTypeNames[rt.Name()] = false
 		}
 	}
+	if svr {
+		// The body is shared with the client code unless it is a copy
+		// made above.
+		body = sd.serverBodyTypes.unique(body, viewName == "")
+	} else {
+		body = sd.clientBodyTypes.unique(body, false)
+	}
 
 	name = body.Type.Name()
 	ref = sd.Scope.GoTypeRef(body)
@@ -2323,6 +2333,162 @@ func buildResponseBodyType(body, att *expr.AttributeExpr, loc *codegen.Location,
 		Example:     body.Example(expr.Root.API.ExampleGenerator),
 		View:        viewName,
 	}
+}
+
+// bodyTypeNames records the user types used to define the attributes of the
+// response bodies declared in one package. It makes sure that the name of a
+// type identifies its attributes: the projection of a result type with its
+// default view and the result type itself (nested in a result which is not
+// rendered using a view) have the same name but not necessarily the same
+// attributes.
+type bodyTypeNames struct {
+	// first is the first type recorded with a given name.
+	first map[string]expr.UserType
+	// orig holds the original name of the types that had to be renamed.
+	orig map[expr.UserType]string
+}
+
+// unique renames - by appending a counter value - the user types used to
+// define the attributes of the given response body whose name has been
+// recorded for a type with different attributes and records the others. The
+// types are renamed in a copy of the body if shared is true.
+func (n *bodyTypeNames) unique(body *expr.AttributeExpr, shared bool) *expr.AttributeExpr {
+	if n.first == nil {
+		n.first = make(map[string]expr.UserType)
+		n.orig = make(map[expr.UserType]string)
+	}
+	uts, names := n.plan(body)
+	if shared {
+		for i, ut := range uts {
+			if names[i] != ut.Name() {
+				body = expr.DupAtt(body)
+				uts, names = n.plan(body)
+				break
+			}
+		}
+	}
+	for i, ut := range uts {
+		if _, ok := n.first[names[i]]; !ok {
+			n.first[names[i]] = ut
+		}
+		if names[i] != ut.Name() {
+			n.orig[ut] = ut.Name()
+			ut.Rename(names[i])
+		}
+	}
+	return body
+}
+
+// plan computes the names of the user types used to define the attributes of
+// the given response body.
+func (n *bodyTypeNames) plan(body *expr.AttributeExpr) (uts []expr.UserType, names []string) {
+	var (
+		local = make(map[string]expr.UserType)
+		seen  = make(map[expr.UserType]struct{})
+		walk  func(dt expr.DataType)
+	)
+	walk = func(dt expr.DataType) {
+		switch actual := dt.(type) {
+		case *expr.Object:
+			for _, nat := range *actual {
+				walk(nat.Attribute.Type)
+			}
+		case *expr.Array:
+			walk(actual.ElemType.Type)
+		case *expr.Map:
+			walk(actual.KeyType.Type)
+			walk(actual.ElemType.Type)
+		case *expr.Union:
+			for _, nat := range actual.Values {
+				walk(nat.Attribute.Type)
+			}
+		case expr.UserType:
+			if _, ok := seen[actual]; ok || actual == expr.Empty {
+				return
+			}
+			seen[actual] = struct{}{}
+			if actual != body.Type {
+				// The name of the body type itself is specific to the
+				// endpoint and the view.
+				name := actual.Name()
+				for i := 2; ; i++ {
+					first, ok := n.first[name]
+					if !ok {
+						first, ok = local[name]
+					}
+					if !ok {
+						local[name] = actual
+						break
+					}
+					if n.same(first, actual, make(map[[2]expr.UserType]struct{})) {
+						break
+					}
+					name = actual.Name() + strconv.Itoa(i)
+				}
+				uts = append(uts, actual)
+				names = append(names, name)
+			}
+			walk(actual.Attribute().Type)
+		}
+	}
+	walk(body.Type)
+	return
+}
+
+// same returns true if the given types used to define attributes of response
+// bodies have the same attributes recursively and their user types the same
+// original names.
+func (n *bodyTypeNames) same(a, b expr.DataType, seen map[[2]expr.UserType]struct{}) bool {
+	if a.Kind() != b.Kind() {
+		return false
+	}
+	switch at := a.(type) {
+	case expr.UserType:
+		bt := b.(expr.UserType)
+		if n.name(at) != n.name(bt) {
+			return false
+		}
+		key := [2]expr.UserType{at, bt}
+		if _, ok := seen[key]; ok {
+			return true
+		}
+		seen[key] = struct{}{}
+		return n.same(at.Attribute().Type, bt.Attribute().Type, seen)
+	case *expr.Array:
+		return n.same(at.ElemType.Type, b.(*expr.Array).ElemType.Type, seen)
+	case *expr.Map:
+		bt := b.(*expr.Map)
+		return n.same(at.KeyType.Type, bt.KeyType.Type, seen) && n.same(at.ElemType.Type, bt.ElemType.Type, seen)
+	case *expr.Object:
+		bt := b.(*expr.Object)
+		if len(*at) != len(*bt) {
+			return false
+		}
+		for i, nat := range *at {
+			if nat.Name != (*bt)[i].Name || !n.same(nat.Attribute.Type, (*bt)[i].Attribute.Type, seen) {
+				return false
+			}
+		}
+	case *expr.Union:
+		bt := b.(*expr.Union)
+		if len(at.Values) != len(bt.Values) {
+			return false
+		}
+		for i, nat := range at.Values {
+			if nat.Name != bt.Values[i].Name || !n.same(nat.Attribute.Type, bt.Values[i].Attribute.Type, seen) {
+				return false
+			}
+		}
+	}
+	return true
+}
+
+// name returns the name the given type had when it was recorded.
+func (n *bodyTypeNames) name(ut expr.UserType) string {
+	if name, ok := n.orig[ut]; ok {
+		return name
+	}
+	return ut.Name()
 }
 
 // reservedVarNames lists the identifiers used by the code generated for the
